@@ -30,8 +30,10 @@ M = {
     "nan_to_num": (SCIPY, "diff = (y2 - y1) / y1 if rel_norm else y2 - y1",
                    "diff = np.nan_to_num((y2 - y1) / y1 if rel_norm else y2 - y1)"),
     # lazily evaluated results use whatever parameters the shared model carries (seeded change C15-6, other wording)
-    "lazy_params_single": (SCAN, "            self.model.update_parameters(p)\n            self.raw_args.append(",
-                           "            if len(self.raw_parameters) != 1:\n                self.model.update_parameters(p)\n            self.raw_args.append("),
+    # (re-based in the closing round onto _compute_args as it is since 4167248: the loop now sits inside try/finally; the stored
+    # seeded/C15-6/patch.diff no longer applies either)
+    "lazy_params_single": (SCAN, "                self.model.update_parameters(p)\n                self.raw_args.append(",
+                           "                if len(self.raw_parameters) != 1:\n                    self.model.update_parameters(p)\n                self.raw_args.append("),
     # seeded changes C15-1 and C15-3 re-based onto the loop as it is since a56e563 (their stored patch.diff no longer applies)
     "seeded1_rel_skips_empty": [
         (SCIPY, "y1 = copy.deepcopy(self.y0)", "y1 = np.array(self.y0, dtype=float)"),
